@@ -764,6 +764,11 @@ func (e *emitter) call(call *ast.CallExpr, want int) []string {
 	if fl, ok := unparen(call.Fun).(*ast.FuncLit); ok && len(call.Args) == 0 {
 		return e.iife(fl, want)
 	}
+	if e.fi.opaqueRecv != nil && len(call.Args) == 0 {
+		if name, _ := opaqueCallOf(e.info, e.fi.opaqueRecv, call); name != "" {
+			return []string{name}
+		}
+	}
 	callee, lib := e.g.calleeOf(e.fi.pkg, call)
 	if callee != nil {
 		return e.callTranslated(call, callee, want)
